@@ -48,4 +48,7 @@ for m in sel:
             print(r.stdout[-3000:])
     finally:
         shutil.rmtree(tmp, ignore_errors=True)
-json.dump(results, open(os.path.join(V, "mutants", "last_results.json"), "w"), indent=1)
+rp = os.path.join(V, "mutants", "last_results.json")
+allr = json.load(open(rp)) if os.path.exists(rp) else {}
+allr.update(results)
+json.dump(allr, open(rp, "w"), indent=1, sort_keys=True)
